@@ -1,4 +1,7 @@
 import Varint.Lemmas.Tagged
+import Varint.Lemmas.External
+import Varint.Lemmas.Chained
+import Varint.Lemmas.Split
 /-
   C01 — scalar varints round-trip every value with agreeing, bounded lengths.
   Property theorems only; helper lemmas live in Varint/Lemmas.
@@ -47,5 +50,143 @@ theorem tagged_quick_eq (v : Nat) (hv : v < 2 ^ 64) (rest : List Nat) :
 /-- non-vacuity: a 9-byte value meets the hypotheses and the statement is about real bytes -/
 example : Tagged.enc (2 ^ 64 - 1) = [255, 255, 255, 255, 255, 255, 255, 255, 255] := by decide
 example : Tagged.get (Tagged.enc 67824 ++ [7]) = .ok 67824 4 := by decide
+
+/-- the 32-bit tagged entry points are the 64-bit ones on a 32-bit value (the harness checks the
+    truncating read-back `*pResult = (uint32_t)iRes`) -/
+theorem tagged32_roundtrip (v : Nat) (hv : v < 2 ^ 32) (rest : List Nat) :
+    Tagged.get (Tagged.enc v ++ rest) = .ok v (Tagged.enc v).length ∧ v % 2 ^ 32 = v :=
+  ⟨Tagged.get_enc v (by omega) rest, Nat.mod_eq_of_lt hv⟩
+
+/-! ## external (little and big endian): width is carried outside the bytes -/
+
+theorem ext_roundtrip (v : Nat) (rest : List Nat) :
+    External.get (External.enc v ++ rest) (External.enc v).length = some v := by
+  rw [External.enc_length]; exact External.get_enc v rest
+
+theorem ext_len_bounds (v : Nat) (hv : v < 2 ^ 64) :
+    (External.enc v).length = extLen v ∧ 1 ≤ extLen v ∧ extLen v ≤ 8 :=
+  ⟨External.enc_length v, External.len_bounds v hv⟩
+
+theorem ext_bytes_lt_256 (v : Nat) : ∀ b ∈ External.enc v, b < 256 := External.enc_lt v
+
+/-- every fixed width not below the minimal width round-trips; the minimal one is the plain encoding -/
+theorem ext_fixed_roundtrip (v w : Nat) (hw : extLen v ≤ w) (rest : List Nat) :
+    External.get (External.encFixed v w ++ rest) w = some v ∧ (External.encFixed v w).length = w ∧
+    External.encFixed v (extLen v) = External.enc v :=
+  ⟨External.get_encFixed v w hw rest, by simp [External.encFixed], rfl⟩
+
+theorem extbe_roundtrip (v : Nat) (rest : List Nat) :
+    ExternalBE.get (ExternalBE.enc v ++ rest) (ExternalBE.enc v).length = some v := by
+  rw [ExternalBE.enc_length]; exact ExternalBE.get_enc v rest
+
+theorem extbe_len_bounds (v : Nat) (hv : v < 2 ^ 64) :
+    (ExternalBE.enc v).length = extLen v ∧ 1 ≤ extLen v ∧ extLen v ≤ 8 :=
+  ⟨ExternalBE.enc_length v, External.len_bounds v hv⟩
+
+theorem extbe_bytes_lt_256 (v : Nat) : ∀ b ∈ ExternalBE.enc v, b < 256 := ExternalBE.enc_lt v
+
+theorem extbe_fixed_roundtrip (v w : Nat) (hw : extLen v ≤ w) (rest : List Nat) :
+    ExternalBE.get (ExternalBE.encFixed v w ++ rest) w = some v ∧ (ExternalBE.encFixed v w).length = w :=
+  ⟨ExternalBE.get_encFixed v w hw rest, by simp [ExternalBE.encFixed]⟩
+
+/-- signed-storage helpers: every value representable (sign + magnitude) in the 24/40/48/56-bit field
+    is restored, and the prepared value fits the field -/
+theorem signed_roundtrip (w : Nat) (hw : w = 3 ∨ w = 5 ∨ w = 6 ∨ w = 7) (s : Int)
+    (hlo : -(2 ^ (8 * w - 1) : Int) < s) (hhi : s < (2 ^ (8 * w - 1) : Int)) :
+    External.restoreSigned w (External.prepareSigned w s) = s ∧ External.prepareSigned w s < 256 ^ w :=
+  External.restore_prepare w (by omega) s hlo hhi
+
+example : External.restoreSigned 5 (External.prepareSigned 5 (-5)) = -5 := by decide
+
+/-! ## chained (sqlite3) and chained-simple (LEB128, 9-byte cap) -/
+
+theorem chained_roundtrip (v : Nat) (hv : v < 2 ^ 64) (rest : List Nat) :
+    Chained.dec (Chained.enc v ++ rest) = some (v, (Chained.enc v).length) := Chained.dec_enc v hv rest
+
+theorem chained_len_agree (v : Nat) (hv : v < 2 ^ 64) :
+    (Chained.enc v).length = Chained.len v ∧ 1 ≤ Chained.len v ∧ Chained.len v ≤ 9 :=
+  ⟨Chained.enc_length v hv, Chained.len_bounds v⟩
+
+theorem chained_bytes_lt_256 (v : Nat) : ∀ b ∈ Chained.enc v, b < 256 := Chained.enc_lt v
+
+/-- 32-bit reader: exact for 32-bit values (it saturates above, which the property excludes) -/
+theorem chained32_roundtrip (v : Nat) (hv : v < 2 ^ 32) (rest : List Nat) :
+    Chained.dec32 (Chained.enc v ++ rest) = some (v, (Chained.enc v).length) := by
+  unfold Chained.dec32
+  rw [Chained.dec_enc v (by omega) rest]
+  have : ¬ v ≥ 2 ^ 32 := by omega
+  simp [this]
+
+theorem csimple_roundtrip (v : Nat) (hv : v < 2 ^ 64) (rest : List Nat) :
+    ChainedSimple.dec (ChainedSimple.enc v ++ rest) = some (v, (ChainedSimple.enc v).length) :=
+  ChainedSimple.dec_enc v hv rest
+
+theorem csimple_len_agree (v : Nat) :
+    (ChainedSimple.enc v).length = ChainedSimple.len v ∧ 1 ≤ ChainedSimple.len v ∧ ChainedSimple.len v ≤ 9 :=
+  ⟨ChainedSimple.enc_length v, ChainedSimple.len_bounds v⟩
+
+theorem csimple_bytes_lt_256 (v : Nat) : ∀ b ∈ ChainedSimple.enc v, b < 256 := ChainedSimple.enc_lt v
+
+/-- the unrolled 32-bit encoder writes the same bytes; the 32-bit decoder truncates a value that fits -/
+theorem csimple32_roundtrip (v : Nat) (hv : v < 2 ^ 32) (rest : List Nat) :
+    ChainedSimple.enc32 v = ChainedSimple.enc v ∧
+    ChainedSimple.dec32 (ChainedSimple.enc32 v ++ rest) = some (v, (ChainedSimple.enc32 v).length) := by
+  refine ⟨ChainedSimple.enc32_eq v hv, ?_⟩
+  unfold ChainedSimple.dec32
+  rw [ChainedSimple.enc32_eq v hv, ChainedSimple.dec_enc v (by omega) rest]
+  simp [Nat.mod_eq_of_lt hv]
+
+/-! ## the four split families (forward and reversed layouts) -/
+
+theorem split_roundtrip (v : Nat) (hv : v < 2 ^ 64) (rest : List Nat) :
+    Split.S.dec (Split.S.enc v ++ rest) = some (v, (Split.S.enc v).length) := Split.S.dec_enc v hv rest
+theorem split_len_agree (v : Nat) (hv : v < 2 ^ 64) :
+    (Split.S.enc v).length = Split.S.len v ∧ Split.S.getLen ((Split.S.enc v).headD 0) = Split.S.len v ∧
+    Split.S.getLenQuick ((Split.S.enc v).headD 0) = Split.S.len v ∧ 1 ≤ Split.S.len v ∧ Split.S.len v ≤ 9 :=
+  ⟨Split.S.enc_length v, (Split.S.getLen_head v hv).1, (Split.S.getLen_head v hv).2, Split.S.len_bounds v hv⟩
+theorem split_bytes_lt_256 (v : Nat) (hv : v < 2 ^ 64) : ∀ b ∈ Split.S.enc v, b < 256 := Split.S.enc_lt v hv
+/-- reversed layout (type byte last, payload at lower addresses), with anything before it -/
+theorem split_rev_roundtrip (v : Nat) (hv : v < 2 ^ 64) (pre : List Nat) :
+    Split.S.decRev (pre ++ Split.S.encRev v) = some (v, Split.S.len v) ∧ (Split.S.encRev v).length = Split.S.len v :=
+  ⟨Split.S.decRev_encRev v hv pre, Split.S.encRev_length v⟩
+
+theorem sfull_roundtrip (v : Nat) (hv : v < 2 ^ 64) (rest : List Nat) :
+    Split.F.dec (Split.F.enc v ++ rest) = some (v, (Split.F.enc v).length) := Split.F.dec_enc v hv rest
+theorem sfull_len_agree (v : Nat) (hv : v < 2 ^ 64) :
+    (Split.F.enc v).length = Split.F.len v ∧ Split.F.getLen ((Split.F.enc v).headD 0) = Split.F.len v ∧
+    Split.F.getLenQuick ((Split.F.enc v).headD 0) = Split.F.len v ∧ 1 ≤ Split.F.len v ∧ Split.F.len v ≤ 9 :=
+  ⟨Split.F.enc_length v, (Split.F.getLen_head v hv).1, (Split.F.getLen_head v hv).2, Split.F.len_bounds v hv⟩
+theorem sfull_bytes_lt_256 (v : Nat) (hv : v < 2 ^ 64) : ∀ b ∈ Split.F.enc v, b < 256 := Split.F.enc_lt v hv
+theorem sfull_rev_roundtrip (v : Nat) (hv : v < 2 ^ 64) (pre : List Nat) :
+    Split.F.decRev (pre ++ Split.F.encRev v) = some (v, Split.F.len v) ∧ (Split.F.encRev v).length = Split.F.len v :=
+  ⟨Split.F.decRev_encRev v hv pre, Split.F.encRev_length v⟩
+
+/-- no-zero family: every non-zero value -/
+theorem snz_roundtrip (v : Nat) (hv : v < 2 ^ 64) (hz : 1 ≤ v) (rest : List Nat) :
+    Split.NZ.dec (Split.NZ.enc v ++ rest) = some (v, (Split.NZ.enc v).length) := Split.NZ.dec_enc v hv hz rest
+theorem snz_len_agree (v : Nat) (hv : v < 2 ^ 64) (hz : 1 ≤ v) :
+    (Split.NZ.enc v).length = Split.NZ.len v ∧ Split.NZ.getLen ((Split.NZ.enc v).headD 0) = Split.NZ.len v ∧
+    Split.NZ.getLenQuick ((Split.NZ.enc v).headD 0) = Split.NZ.len v ∧ 1 ≤ Split.NZ.len v ∧ Split.NZ.len v ≤ 9 :=
+  ⟨Split.NZ.enc_length v, (Split.NZ.getLen_head v hv hz).1, (Split.NZ.getLen_head v hv hz).2, Split.NZ.len_bounds v hv⟩
+theorem snz_bytes_lt_256 (v : Nat) (hv : v < 2 ^ 64) : ∀ b ∈ Split.NZ.enc v, b < 256 := Split.NZ.enc_lt v hv
+theorem snz_rev_roundtrip (v : Nat) (hv : v < 2 ^ 64) (hz : 1 ≤ v) (pre : List Nat) :
+    Split.NZ.decRev (pre ++ Split.NZ.encRev v) = some (v, Split.NZ.len v) ∧ (Split.NZ.encRev v).length = Split.NZ.len v :=
+  ⟨Split.NZ.decRev_encRev v hv hz pre, Split.NZ.encRev_length v⟩
+
+/-- split-full-16: 2 to 9 bytes -/
+theorem s16_roundtrip (v : Nat) (hv : v < 2 ^ 64) (rest : List Nat) :
+    Split.S16.dec (Split.S16.enc v ++ rest) = some (v, (Split.S16.enc v).length) := Split.S16.dec_enc v hv rest
+theorem s16_len_agree (v : Nat) (hv : v < 2 ^ 64) :
+    (Split.S16.enc v).length = Split.S16.len v ∧ Split.S16.getLen ((Split.S16.enc v).headD 0) = Split.S16.len v ∧
+    Split.S16.getLenQuick ((Split.S16.enc v).headD 0) = Split.S16.len v ∧ 2 ≤ Split.S16.len v ∧ Split.S16.len v ≤ 9 :=
+  ⟨Split.S16.enc_length v, (Split.S16.getLen_head v hv).1, (Split.S16.getLen_head v hv).2, Split.S16.len_bounds v hv⟩
+theorem s16_bytes_lt_256 (v : Nat) (hv : v < 2 ^ 64) : ∀ b ∈ Split.S16.enc v, b < 256 := Split.S16.enc_lt v hv
+
+/-- non-vacuity: concrete values from every level of every family -/
+example : Split.S.dec (Split.S.enc 16447 ++ [9]) = some (16447, 2) := by decide
+example : Split.F.enc 4210750 = [194, 1, 0] := by decide
+example : Split.NZ.dec (Split.NZ.enc 1) = some (1, 1) := by decide
+example : Split.S16.enc 1077952510 = [196, 1, 0, 0, 0] := by decide
+example : Chained.enc (2 ^ 56) = [128, 192, 128, 128, 128, 128, 128, 128, 0] := by decide
 
 end Varint.Props.C01
